@@ -7,7 +7,9 @@ MANIFEST = {
             "two f32 operations, unit vw, sign flag kept, original token as source-map name), C10_int_exact_refuted "
             "(`2147483647` is printed `2147480000`: the full 'integers exactly' statement is false for the current code, "
             "D16), C10_int_exact_upto_100000 (every integer 0..100000 is printed exactly — by evaluating the model on every "
-            "value), C10_prelude_rpx_refuted (`@a 75rpx;`: an rpx dimension directly in an at-rule prelude is left unconverted, "
+            "value), C10_units_exact_sheet (the unit of every dimension of the whole normal output is the specification's - vw exactly "
+            "for the rpx dimensions the specification converts, in declarations, functions, selector and at-rule prelude blocks, "
+            "custom properties, @import conditions - for every sheet and option set outside class D29), C10_prelude_rpx_refuted (`@a 75rpx;`: an rpx dimension directly in an at-rule prelude is left unconverted, "
             "known finding D29 pinned by a unit test of /repo). The f32 arithmetic and cssparser's number printer (dtoa Grisu2-f32 + dtoa-short 6 digits) are "
             "transliterated in Gallina and tied to the binaries by differential testing: every numeric token of every "
             "generated sheet is printed by both (byte-exact agreement is part of the model/implementation comparison), "
@@ -20,7 +22,7 @@ MANIFEST = {
 }
 
 THEOREMS = ["C10_rpx_only", "C10_rpx_formula", "C10_int_exact_refuted", "C10_int_exact_upto_100000",
-            "C10_prelude_rpx_refuted"]
+            "C10_prelude_rpx_refuted", "C10_units_exact_sheet"]
 
 
 def run(res):
